@@ -142,7 +142,7 @@ end
 /-! ### scalar set elements and dict keys -/
 
 def isScalar : Obj → Bool
-  | .coll _ _ | .dict _ | .inst _ _ => false
+  | .coll _ _ | .dict _ | .mdict _ _ | .inst _ _ => false
   | _ => true
 
 def allScalar (xs : List Obj) : Bool := xs.all isScalar
